@@ -104,70 +104,84 @@ func (eng *Engine) counterexample(verif, repo, prop string, o *Obligation) (map[
 	if fn == nil || len(o.Inputs) == 0 {
 		return nil, false
 	}
-	lines := qfLines(o)
-	// phase 1: scalar leaves and lengths
+	base := qfLines(o)
 	var terms []string
 	for _, in := range o.Inputs {
 		terms = append(terms, inputScalarTerms(in.V)...)
 	}
-	// prefer small inputs
-	small := append([]string{}, lines...)
-	for _, t := range terms {
-		if strings.HasSuffix(t, "_len") || strings.HasPrefix(t, "(slen ") {
-			small = append(small, "(assert (<= "+t+" 4096))")
+	panicKind := !(o.Kind == "post" || o.Kind == "inv-init" || o.Kind == "inv-step" || o.Kind == "pre" || o.Kind == "frame" || o.Kind == "lock")
+	// The relaxation drops quantified facts (callee contracts, string axioms), so its
+	// model is only a candidate. Candidates are tried from the smallest inputs up;
+	// the first one that makes the real code fail is the counterexample.
+	bounds := []int{0, 1, 2, 3, 4, 8, 64, 4096}
+	if !panicKind {
+		bounds = []int{4096}
+	}
+	var last map[string]interface{}
+	tried := 0
+	for _, bound := range bounds {
+		lines := append([]string{}, base...)
+		for _, t := range terms {
+			if strings.HasSuffix(t, "_len") || strings.HasPrefix(t, "(slen ") {
+				lines = append(lines, fmt.Sprintf("(assert (<= %s %d))", t, bound))
+			}
+		}
+		vals, st := runGetValues(lines, terms, 5)
+		if st != "sat" {
+			continue
+		}
+		pinned := append([]string{}, lines...)
+		for t, v := range vals {
+			pinned = append(pinned, "(assert (= "+t+" "+smtNum(v)+"))")
+		}
+		var terms2 []string
+		for _, in := range o.Inputs {
+			terms2 = append(terms2, inputContentTerms(in.V, vals)...)
+		}
+		vals2 := map[string]string{}
+		if len(terms2) > 0 {
+			if v2, st2 := runGetValues(pinned, terms2, 5); st2 == "sat" {
+				vals2 = v2
+			}
+		}
+		for k, v := range vals {
+			vals2[k] = v
+		}
+		cex := map[string]interface{}{}
+		var args []goArg
+		simple := true
+		for _, in := range o.Inputs {
+			expr, desc, ok := goValue(in.V, vals2)
+			cex[in.Name] = desc
+			if !ok {
+				simple = false
+			}
+			args = append(args, goArg{Name: in.Name, Type: types.TypeString(in.V.T, nil), Expr: expr})
+		}
+		last = cex
+		if !simple {
+			cex["replay"] = "no generic adapter for these parameter types"
+			return cex, false
+		}
+		if !panicKind {
+			cex["replay"] = "functional clause: candidate inputs only (no generic clause oracle)"
+			return cex, false
+		}
+		tried++
+		ok, out := eng.replayPanic(repo, fn, args)
+		cex["replay_output"] = trunc(out, 1500)
+		cex["candidates_tried"] = tried
+		if ok {
+			return cex, true
+		}
+		if tried >= 6 {
+			break
 		}
 	}
-	vals, st := runGetValues(small, terms, 10)
-	if st == "sat" {
-		lines = small
-	} else {
-		vals, st = runGetValues(lines, terms, 10)
-	}
-	if st != "sat" {
+	if last == nil {
 		return map[string]interface{}{"search": "quantifier-free relaxation gave no model"}, false
 	}
-	// pin phase-1 values
-	pinned := append([]string{}, lines...)
-	for t, v := range vals {
-		pinned = append(pinned, "(assert (= "+t+" "+smtNum(v)+"))")
-	}
-	// phase 2: contents
-	var terms2 []string
-	for _, in := range o.Inputs {
-		terms2 = append(terms2, inputContentTerms(in.V, vals)...)
-	}
-	vals2 := map[string]string{}
-	if len(terms2) > 0 {
-		v2, st2 := runGetValues(pinned, terms2, 10)
-		if st2 == "sat" {
-			vals2 = v2
-		}
-	}
-	for k, v := range vals {
-		vals2[k] = v
-	}
-	cex := map[string]interface{}{}
-	var args []goArg
-	simple := true
-	for _, in := range o.Inputs {
-		expr, desc, ok := goValue(in.V, vals2)
-		cex[in.Name] = desc
-		if !ok {
-			simple = false
-		}
-		args = append(args, goArg{Name: in.Name, Type: types.TypeString(in.V.T, nil), Expr: expr})
-	}
-	if !simple {
-		cex["replay"] = "no generic adapter for these parameter types"
-		return cex, false
-	}
-	if o.Kind == "post" || o.Kind == "inv-init" || o.Kind == "inv-step" || o.Kind == "pre" || o.Kind == "frame" || o.Kind == "lock" {
-		cex["replay"] = "functional clause: candidate inputs only (no generic clause oracle)"
-		return cex, false
-	}
-	ok, out := eng.replayPanic(repo, fn, args)
-	cex["replay_output"] = trunc(out, 1500)
-	return cex, ok
+	return last, false
 }
 
 func smtNum(v string) string {
